@@ -121,6 +121,42 @@ pub fn dns_msg(id: u16, flags: u16, qname: &str, qtype: u16, qd: u16, rrs: &[Rr]
     m
 }
 
+/// A response whose question name cannot be decoded (0: a pointer to itself, 1: the queried name's first label and then a
+/// pointer past the end of the message, 2: a pointer to the first answer record's owner field, which points back -- a loop
+/// of two) and whose (last) answer record spells the queried name in full.
+pub fn dns_msg_badq(id: u16, kind: u8, name: &str, qtype: u16, a: [u8; 4]) -> Vec<u8> {
+    let mut m = vec![];
+    m.extend_from_slice(&id.to_be_bytes());
+    m.extend_from_slice(&0x8180u16.to_be_bytes());
+    m.extend_from_slice(&[0, 1, 0, 1, 0, 0, 0, 0]);
+    match kind {
+        0 => m.extend_from_slice(&[0xC0, 12]),
+        1 => {
+            let first = name.split('.').next().unwrap_or("a");
+            m.push(first.len() as u8);
+            m.extend_from_slice(first.as_bytes());
+            m.extend_from_slice(&[0xFF, 0xF0]);
+        }
+        _ => {
+            // the question name is a pointer to the answer's owner field, which points back at the question name
+            m.extend_from_slice(&[0xC0, 18]);
+        }
+    }
+    m.extend_from_slice(&qtype.to_be_bytes());
+    m.extend_from_slice(&[0, 1]);
+    if kind >= 2 {
+        // (offset 18) owner: pointer back to offset 12; a second record spells the name
+        m[7] = 2;
+        m.extend_from_slice(&[0xC0, 12]);
+        m.extend_from_slice(&[0, 1, 0, 1, 0, 0, 0, 60, 0, 4]);
+        m.extend_from_slice(&a);
+    }
+    m.extend_from_slice(&enc_name(name));
+    m.extend_from_slice(&[0, 1, 0, 1, 0, 0, 0, 60, 0, 4]);
+    m.extend_from_slice(&a);
+    m
+}
+
 pub fn parse_query(p: &[u8]) -> Option<(u16, String, u16)> {
     if p.len() < 17 {
         return None;
@@ -283,7 +319,13 @@ pub fn random(args: &Args) {
                     pending.push((now + delay, ipv4_packet(dst_ip, [10, 0, 0, 1], 17, 1, 64, &udp_datagram(srv_port, *sport, &m), true)));
                 } else {
                     // hostile variants: each must NOT complete the query with an address
-                    let v = rng.below(19);
+                    let v = rng.below(22);
+                    if v >= 19 {
+                        // the question does not repeat the queried name: it cannot be decoded at all
+                        let m = dns_msg_badq(id, (v - 19) as u8, &name, qt, [66, 66, 66, 66]);
+                        pending.push((now + delay, ipv4_packet(dst_ip, [10, 0, 0, 1], 17, 1, 64, &udp_datagram(srv_port, *sport, &m), true)));
+                        continue;
+                    }
                     if v == 18 {
                         // two steps: a response for the right question whose first record is a CNAME to a foreign name and whose
                         // second record is cut short, then a response that repeats the CNAME target (not the query's name) as its
